@@ -131,6 +131,7 @@ def judge(info: Dict[str, Any], ops: List[Dict[str, Any]]) -> Tuple[Verdicts, Di
              "observer_calls": 0, "observer_raises": 0, "observer_raises_in_tick": 0}
     seen_keyi = False
     imr_seen = set()
+    over_len = cap              # longest over-capacity queue length already reported
 
     def key(code: int) -> KeyHist:
         k = keys.get(code)
@@ -431,17 +432,29 @@ def judge(info: Dict[str, Any], ops: List[Dict[str, Any]]) -> Tuple[Verdicts, Di
                         if k.since >= want:
                             which = "first repeat after the press event" if k.last == "press" else \
                                 "repeat after a repeat"
-                            V.add("repeat-cadence", verb, f"{which} missing" + k.ctx(), idx,
+                            V.add("repeat-cadence", verb, f"{which} missing" + k.ctx() + tctx, idx,
                                   f"key {k.code:#04x}: {k.since} clean tick(s) since the previous event, configured "
                                   f"{'delay' if k.last == 'press' else 'interval'}={want}")
                             k.clean = False
+
+        if any(t.get("observer_fault") for t in op.get("ticks", [])):
+            # an exception came out of a scan tick: how far the tick got is unknown, so after its own verdicts the
+            # grammar position of every key is resynchronised (one root cause, not a trail of follow-up verdicts)
+            for k in keys.values():
+                k.g = "unknown"
+                k.last = None
+                k.clean = False
 
         # ---------------- queue ----------------
         fifo = list(op["fifo"])
         facts["max_fifo"] = max(facts["max_fifo"], len(fifo))
         if len(fifo) >= cap:
             facts["full_queue"] += 1
-        if len(fifo) > cap:
+        if len(fifo) <= cap:
+            over_len = cap
+        elif len(fifo) > over_len:
+            # reported at the operation that made the queue (more) over-long, not again at every later operation
+            over_len = len(fifo)
             V.add("fifo", verb, "queue longer than its capacity", idx, f"len={len(fifo)} capacity={cap}")
         av = op.get("adapter_violation")
         if av:
